@@ -4,6 +4,7 @@
 package vsync
 
 import (
+	"fmt"
 	"sync"
 
 	"github.com/dlclark/regexp2/v2/verifshim/vsched"
@@ -199,10 +200,29 @@ func (p *Pool) Put(x any) {
 	if x == nil {
 		return
 	}
+	for _, it := range p.items {
+		if sameObject(it, x) {
+			// a real sync.Pool would hand this object to two callers
+			if vsched.S.Fault == "" {
+				vsched.S.Fault = fmt.Sprintf("pool invariant: an object of type %T was put into a pool that already holds it (double Put): two later Gets can return the same object", x)
+			}
+			return
+		}
+	}
 	if vsched.S.PoolDev && vsched.S.Choose(2, 'p', false, "pool-put") == 1 {
 		return // dropped
 	}
 	p.items = append(p.items, x)
+}
+
+// sameObject compares two pooled items by identity (pooled items are pointers; anything else never matches).
+func sameObject(a, b any) (same bool) {
+	defer func() {
+		if recover() != nil {
+			same = false
+		}
+	}()
+	return a == b
 }
 
 type Once struct {
